@@ -30,11 +30,19 @@ TRIGGERS = ['<div style="overflow:auto; height:300px">', '{| style="overflow:aut
             '<div class="dablink">', '<div class="notice">', '<span style="font-size:200%">', '<div style="float:right">', '<center>', '<div align="center">']
 
 
+# every place a scroll box can be written x every way a length can be written (unit, sign, zero, junk)
+LENGTHS = ["300px", "80%", "100%", "2em", "12pt", "0%", "0", "auto", "1e3px", "-5px", "50", "3.5em", ".5%", "10ex", "2cm", "%", "px"]
+TRIGGERS += [form % ("overflow:auto; height:" + ln) for ln in LENGTHS
+             for form in ('<div style="%s">', '{| style="%s"', '| style="%s" |', '<span style="%s">')]
+TRIGGERS += ['<div style="overflow:AUTO; HEIGHT:50%">', '<div style="height:75%; overflow: auto;">', '<table style="width:80%; height:40%; overflow:auto">',
+             '<div style="font-size:80%">', '<div style="width:50%; margin-left:10%">', '<span style="font-size:2em; line-height:150%">']
+
+
 ATTR_NAMES = ["style", "class", "id", "colspan", "rowspan", "width", "height", "align", "name", "group", "lang", "dir", "title", "border",
               "cellpadding", "bgcolor", "valign", "span", "start", "type", "value", "clear", "color", "size", "face", "nowrap"]
 ATTR_VALUES = ["x", "", "2", "0", "-1", "99999", "1e3", "50%", "100px", "3em", "red", "#fff", "a b", "a:b", "a:b:c", "x::y", ":", ";", ";;:",
                "color:red", "color:red;", "width:50%; height:300px", "background:url(http://x.org/a.png)", "filter:progid:DXImageTransform.M(s=1)",
-               "overflow:auto; height:200px", "display:none", "position:absolute", "font-size:200%", "float:right", "text-align:center",
+               "overflow:auto; height:200px", "overflow:auto; height:80%", "height:50%", "display:none", "position:absolute", "font-size:200%", "float:right", "text-align:center",
                "border:1px solid #aaa", "width:900px", "COLOR:RED", "color : red ; ; width", "margin:0 auto", "a=b", "'", "<", ">", "&amp;", "é",
                "noprint", "infobox", "navbox", "wikitable sortable", "region_list", "references-small", "rtl", "ltr", "center", "left", "top"]
 
